@@ -133,6 +133,9 @@ def verus_phase(prop, units_sel, tier, canary):
                                             if f.endswith('.rs') and f != 'mod.rs')
         rl = None if tier == 'quick' else 40
         res = verus.run_verus(ws, modules=mods + ([] if canary else specmods), rlimit=rl, threads=8)
+        if not canary and any(any(x in d['message'] for x in RLIMIT_MSGS) for d in res['diags'] if d['level'] == 'error'):
+            # the solver gave up somewhere: one retry with ten times the budget before concluding anything
+            res = verus.run_verus(ws, modules=mods + specmods, rlimit=(rl or 10) * 10, threads=8)
         js = res['json']
         if js is None:
             raise Undecided("verus produced no JSON (rc %d): %s" % (res['rc'], res['stderr'][-1500:]))
@@ -149,6 +152,15 @@ def verus_phase(prop, units_sel, tier, canary):
         other = []
         for d in errs:
             if any(x in d['message'] for x in RLIMIT_MSGS):
+                if canary:
+                    continue
+                uid = ws.unit_at(d['file'], d['line']) if d['file'] else None
+                if uid in uids and ws.report.get(uid, {}).get('status') == 'transplanted':
+                    # The unit verified within the budget on the unchanged tree; its code was changed and the solver
+                    # now gives up even with ten times the budget: reported as a failed obligation of that unit.
+                    failures.append(Failure(prop, uid, 'solver-gave-up', ws.line_text(d['file'], d['line']), d['message'],
+                                            'the changed unit no longer verifies: ' + d['message'] + ' (10x resource limit)'))
+                    continue
                 raise Undecided("solver resource limit: %s (%s:%s)" % (d['message'], d['file'], d['line']))
             kind = classify(d['message'])
             if kind is None:
